@@ -10,7 +10,7 @@ from ..model import Model
 from ..normal import ext_name, strip_cast
 from ..report import Result
 from ..terms import NONE, T, const, contains, deps, mk, uncopy
-from .common import txt
+from .common import norm_path, txt
 
 EXPLANATION = (
     "Decided on jumanji/specs.py for Array, BoundedArray, DiscreteArray, MultiDiscreteArray and the nested Spec: (R1) "
@@ -27,6 +27,7 @@ EXPLANATION = (
     "subclasses before superclasses and wire num_values/minimum/maximum/shape/dtype to the matching arguments. Not "
     "decided: the laws as universally quantified statements over values (membership agreement, reflexivity on NaN "
     "bounds, gym/dm_env membership) -- value-level.")
+EXPLANATION += " Nested equality rests on is_equal_pytree comparing structure and every leaf (shared with C19.R2); the gym value converter keeps each leaf's dtype (shared with C15.R3)."
 
 S = "jumanji.specs."
 ARRAY_SPECS = ["Array", "BoundedArray", "DiscreteArray", "MultiDiscreteArray"]
@@ -59,7 +60,7 @@ def spec_model(tree, ci: ClassInfo):
     for c in tree.mro(ci):
         for name, f in c.methods.items():
             if f.is_property and name not in props:
-                r = uncopy(VFG(tree, Model(tree)).apply_func(f, self_t, ci, [], {}, None, None))
+                r = uncopy(VFG(tree, Model(tree)).apply_func(f, self_t, f.cls, [], {}, None, None))
                 props[name] = r.args[1] if r.kind == "attr" and r.args[0] is self_t else None
     return ia, ip, props
 
@@ -267,7 +268,7 @@ def check(tier: str) -> Result:
     fails = is_or = False
     for fn, node, path, _ in raise_exits(vb):
         for t, pol, pf in path:
-            if pf is not bv or not pol:
+            if not pol:
                 continue
             ds = disjuncts(t)
             got = {}
@@ -357,6 +358,17 @@ def check(tier: str) -> Result:
         if kw is not None and ext_name(kw) == "builtins.mutated.update" and len(kw.args[1]) == 2:
             base, upd = kw.args[1]
             ok = ext_name(base) in ("copy.deepcopy", "copy.copy", "builtins.dict") and base.args[1] and base.args[1][0] is specs_t and upd is kwp
+        elif kw is not None and kw.kind == "dict":
+            # {**copy_of_children, **kwargs}: a fresh dict in which the caller's entries override
+            stars = [v for k, v in zip(kw.args[0], kw.args[1]) if k.kind == "star"]
+            if len(stars) == 2 and len(kw.args[0]) == 2:
+                base, upd = stars
+                src = base.args[1][0] if ext_name(base) in ("copy.deepcopy", "copy.copy", "builtins.dict") and base.args[1] else base
+                ok = src is specs_t and upd is kwp
+        elif kw is not None and kw.kind == "bin" and kw.args[0] == "|":
+            base, upd = kw.args[1], kw.args[2]
+            src = base.args[1][0] if ext_name(base) in ("copy.deepcopy", "copy.copy", "builtins.dict") and base.args[1] else base
+            ok = src is specs_t and upd is kwp
     res.add("C16.R5", rp.loc(), "specs.Spec.replace", "Spec(self._constructor, name, **(copy of self._specs updated with kwargs))", ok, txt(r, 6, 240))
     eq = sp.methods.get("__eq__")
     oth = mk("param", eq.qual, eq.params[1])
@@ -366,7 +378,10 @@ def check(tier: str) -> Result:
     res.add("C16.R5", eq.loc(), "specs.Spec.__eq__", "nested specs are equal exactly when their children (self._specs, other._specs) are", ok, txt(r, 6, 200))
     # ------------------------------------------------------------------ R6 conversions
     n_conv = conversion_obligations(res, tree, "C16.R6")
-    res.analysed = {"classes": ARRAY_SPECS + ["Spec"], "conversion_branches": n_conv}
+    from .common import borrow
+    n_eq = borrow(res, "c19", {"C19.R2": "C16.R5"})
+    n_eq += borrow(res, "c15", {"C15.R3": "C16.R6"}, envs=["jumanji_to_gym_obs"])
+    res.analysed = {"classes": ARRAY_SPECS + ["Spec"], "conversion_branches": n_conv, "pytree_equality_obligations": n_eq}
     res.assumptions = ["properties are the only readers used by replace (inspect.signature + getattr)",
                        "element-wise == on jax arrays yields an array whose truth value is defined only for size 1"]
     return res
@@ -390,81 +405,85 @@ CONV = {"jumanji_specs_to_dm_env_specs": {"DiscreteArray": {"num_values": "num_v
 
 
 def conversion_obligations(res: Result, tree, rule: str) -> int:
+    """Decided on the value-flow graph of the two conversion functions with `spec` abstract: every `return` is
+    logged with the isinstance tests that lead to it (an if/elif chain, early returns, a `match` statement and a
+    table of (class, converter) pairs all give the same facts)."""
     m = tree.modules["jumanji.specs"]
     count = 0
     for fname, table in CONV.items():
         f = m.functions.get(fname)
         if f is None:
             raise AnalysisError(f"anchor {S}{fname} not found")
-        # isinstance chain
-        chain: List[Tuple[str, ast.If]] = []
-        node = None
-        for st in f.node.body:
-            if isinstance(st, ast.If):
-                node = st
-                break
-        while isinstance(node, ast.If):
-            t = node.test
-            if isinstance(t, ast.Call) and isinstance(t.func, ast.Name) and t.func.id == "isinstance" and len(t.args) == 2 and isinstance(t.args[1], ast.Name):
-                chain.append((t.args[1].id, node))
-            nxt = node.orelse
-            last_else = nxt
-            node = nxt[0] if len(nxt) == 1 and isinstance(nxt[0], ast.If) else None
-        names = [c for c, _ in chain]
-        for i, (cn, nd) in enumerate(chain):
+        v = VFG(tree, Model(tree))
+        spec = mk("param", f.qual, f.params[0])
+        v.apply_func(f, None, None, [spec], {}, None, None)
+
+        def inst_class(t: T):
+            """C for the test isinstance(spec, C)"""
+            if ext_name(t) == "builtins.isinstance" and len(t.args[1]) == 2 and t.args[1][0] is spec and t.args[1][1].kind == "cls":
+                q = t.args[1][1].args[0]
+                return q.split(".")[-1] if q.startswith(S) else None
+            return None
+
+        branches: List[Tuple[str, List[str], T, object]] = []     # (class, classes rejected before, returned value, node)
+        for kind, fn_, node, path, val in v.exits:
+            if kind != "return" or val is None:
+                continue
+            tests = [(inst_class(t), pol) for t, pol, _ in norm_path(path)]
+            tests = [(c, pol) for c, pol in tests if c is not None]
+            pos = [c for c, pol in tests if pol]
+            if len(pos) != 1:
+                continue
+            cn = pos[0]
+            top = (ext_name(uncopy(val)) or "").split(".")[0]
+            if top not in ("gym", "gymnasium", "dm_env"):
+                continue     # a helper's return value on the way (e.g. the name), not the converted spec
+            if any(b[0] == cn for b in branches):
+                continue
+            branches.append((cn, [c for c, pol in tests if not pol], uncopy(val), node))
+        names = [b[0] for b in branches]
+        for cn, rejected, val, node in branches:
             ci = tree.classes.get(S + cn)
             if ci is None:
                 continue
-            shadowed = [later for later in names[i + 1:] if tree.classes.get(S + later) is not None and
-                        tree.is_subclass(tree.classes[S + later], ci.qual) and later != cn]
-            res.add(rule, f"{m.relpath}:{nd.lineno}", f"specs.{fname}", f"branch isinstance(spec, {cn}) does not shadow a later subclass branch", not shadowed,
-                    "order ok" if not shadowed else f"{shadowed} can never be reached: they are subclasses of {cn}")
+            # reached only if no class tested (and rejected) earlier is a superclass of this one
+            shadowing = [r for r in rejected if tree.classes.get(S + r) is not None and r != cn and tree.is_subclass(ci, S + r)]
+            res.add(rule, f"{m.relpath}:{getattr(node, 'lineno', f.node.lineno)}", f"specs.{fname}", f"branch isinstance(spec, {cn}) is not shadowed by an earlier superclass branch", not shadowing,
+                    "order ok" if not shadowing else f"never reached: {shadowing} is tested first and {cn} is its subclass")
             count += 1
             want = table.get(cn)
             if want:
-                # the branch returns a call wiring attributes (possibly through local variables)
-                local: Dict[str, str] = {}
-                impure: Dict[str, str] = {}
-                ret = None
-                for st in ast.walk(nd):
-                    if st is not nd and isinstance(st, ast.If) and st in getattr(nd, "orelse", []):
-                        continue
-                for st in _branch_stmts(nd.body):
-                    if isinstance(st, (ast.Assign, ast.AugAssign)) and isinstance(st.targets[0] if isinstance(st, ast.Assign) else st.target, ast.Name):
-                        tgt = (st.targets[0] if isinstance(st, ast.Assign) else st.target).id
-                        val = st.value
-                        pure = isinstance(st, ast.Assign) and _pure_relay(val)
-                        if tgt in local or tgt in impure or not pure:
-                            impure[tgt] = ast.unparse(st)[:70]
-                        if pure:
-                            local.setdefault(tgt, pure)
-                    if isinstance(st, ast.Return) and ret is None:
-                        ret = st.value
                 ok = False
-                why = "no returned call"
-                if isinstance(ret, ast.Call):
+                why = f"returns {txt(val, 3, 100)}"
+                if val.kind == "call":
                     got = {}
-                    for k in ret.keywords:
-                        v = k.value
-                        if isinstance(v, ast.Attribute) and isinstance(v.value, ast.Name) and v.value.id == "spec":
-                            got[k.arg] = v.attr
-                        elif isinstance(v, ast.Name) and v.id in impure:
-                            got[k.arg] = f"<{v.id} modified before use: {impure[v.id]}>"
-                        elif isinstance(v, ast.Name) and v.id in local:
-                            got[k.arg] = local[v.id]
-                    bad = {k: (got.get(k), v) for k, v in want.items() if got.get(k) != v}
+                    for k, a in val.args[2]:
+                        got[k] = _relay_of(a, spec)
+                    bad = {k: (got.get(k), w) for k, w in want.items() if got.get(k) != w}
                     ok = not bad
                     why = f"wiring {got}" if ok else f"mis-wired {bad}"
-                res.add(rule, f"{m.relpath}:{nd.lineno}", f"specs.{fname}", f"{cn} branch wires {want}", ok, why)
+                res.add(rule, f"{m.relpath}:{getattr(node, 'lineno', f.node.lineno)}", f"specs.{fname}", f"{cn} branch wires {want}", ok, why)
                 count += 1
         missing = [c for c in table if c not in names]
         res.add(rule, f.loc(), f"specs.{fname}", "every array spec kind has a conversion branch", not missing, f"branches {names}" if not missing else f"missing {missing}")
         count += 1
         # nested: recursion over children
-        rec = any(isinstance(n, ast.Call) and isinstance(n.func, ast.Name) and n.func.id == fname for n in ast.walk(f.node))
+        rec = any(dst == f.qual for src, dst in v.call_edges)
         res.add(rule, f.loc(), f"specs.{fname}", "nested specs are converted recursively child by child", rec, "recursive call present" if rec else "no recursion")
         count += 1
     return count
+
+
+def _relay_of(a: T, spec: T):
+    """'attr' when a is spec.<attr> or a shape-only wrapper (broadcast_to / asarray / array) of it; otherwise a
+    printed form of the value (so that a modified bound is reported as such)."""
+    a = uncopy(a)
+    if a.kind == "attr" and a.args[0] is spec:
+        return a.args[1]
+    n = ext_name(a)
+    if n is not None and n.split(".")[-1] in ("broadcast_to", "asarray", "array") and a.args[1]:
+        return _relay_of(a.args[1][0], spec)
+    return f"<{txt(a, 3, 50)}>"
 
 
 def _branch_stmts(body):
@@ -542,7 +561,7 @@ def eq_facts_vfg(tree, ci: ClassInfo, eq: FuncInfo):
             return
         if n == "jumanji.testing.pytrees.is_equal_pytree":
             return
-        if t.kind == "cmp" and t.args[0] == "==":
+        if t.kind == "cmp" and t.args[0] in ("==", "!="):
             a = pair(t.args[1], t.args[2])
             if a:
                 compared[a] = compared.get(a, True) and (not truth_ctx)
@@ -555,7 +574,7 @@ def eq_facts_vfg(tree, ci: ClassInfo, eq: FuncInfo):
         walk(a, True)
     # guard-clause form: `if not (self.p == other.p): return False` -- the test of every python branch of __eq__
     # itself is a truth-value use of its comparisons
-    for e in v.events:
-        if e.kind == "py_branch" and e.func is eq and e.target is not None:
+    for e in v.events:   # (v evaluated only __eq__: tests inside helpers it calls are part of the comparison)
+        if e.kind == "py_branch" and e.target is not None:
             walk(uncopy(e.target), True)
     return compared, guard
